@@ -82,15 +82,27 @@ def _ops_table() -> List[List[Any]]:
     t += [["initsid", k, v] for k in INITSID_TARGETS for v in range(3)]
     # a SECOND ProtocolHandler (B) alive next to the first: its store must be its own
     t += [["b-create"], ["b-init"], ["b-delete", 0], ["b-clear"]]
+    # the application replaces the handler's store by a fresh one (once per history)
+    t += [["replace-store"]]
+    # the environment re-seeds / restores the process-wide ``random`` state right before an id is issued
+    t += [["rng-create", "seed"], ["rng-create", "setstate"], ["rng-init", "seed"], ["rng-init", "setstate"]]
     return t
 
 
 OPS = _ops_table()
 
 
-def enabled(n_issued: int, n_issued_b: int = 0) -> List[int]:
+def enabled(n_issued: int, n_issued_b: int = 0, replaced: bool = False) -> List[int]:
     out = []
     for code, op in enumerate(OPS):
+        if op[0] == "replace-store":
+            if not replaced:
+                out.append(code)
+            continue
+        if op[0] in ("rng-create", "rng-init"):
+            if n_issued < MAX_IDS:
+                out.append(code)
+            continue
         if op[0] in ("b-create", "b-init"):
             if n_issued_b < MAX_IDS_B:
                 out.append(code)
@@ -120,6 +132,8 @@ def opname(op) -> str:
         return "initialize-with-session-id" + (":never-issued-id" if op[1] < 0 else ":issued-id")
     if op[0].startswith("b-"):
         return "handlerB:" + op[0][2:]
+    if op[0].startswith("rng-"):
+        return f"random.{op[1]}-then-{'create_session' if op[0] == 'rng-create' else 'initialize'}"
     return op[0]
 
 
@@ -158,16 +172,26 @@ class Seams:
         self.ids = IdStub()
         mem.time = self.clock
         _uuid.uuid4 = self.ids
+        import random as _random
+
+        self.random = _random
+        self.orig_random_state = _random.getstate()
+        self.saved_random_state = None
         return self
 
     def reset(self):
         self.clock.now = T0
         self.clock.calls = 0
         self.ids.n = 0
+        # the process-wide generator starts every execution in the same (owned) state; an application may later put it
+        # back into this state (setstate) or re-seed it
+        self.random.seed(0xC19)
+        self.saved_random_state = self.random.getstate()
 
     def __exit__(self, *a):
         self.mem.time = self.orig_time
         _uuid.uuid4 = self.orig_uuid
+        self.random.setstate(self.orig_random_state)
         return False
 
 
@@ -181,6 +205,7 @@ class Model:
         self.s: Dict[int, List[Any]] = {}   # issue index -> [client_info, version, created, last]
         self.nb = 0
         self.b: Dict[int, List[Any]] = {}   # the second handler's own map
+        self.replaced = False               # the first handler's store was replaced by a fresh one
 
     def add(self, info, version):
         self.s[self.n] = [info, version, self.now, self.now]
@@ -189,7 +214,7 @@ class Model:
 
     def canon(self):
         return [self.n, [[i, r[0], r[1], self.now - r[2], self.now - r[3]] for i, r in sorted(self.s.items())],
-                self.nb, [[i, r[0], r[1], self.now - r[2], self.now - r[3]] for i, r in sorted(self.b.items())]]
+                self.nb, [[i, r[0], r[1], self.now - r[2], self.now - r[3]] for i, r in sorted(self.b.items())], self.replaced]
 
 
 def _h(x) -> str:
@@ -346,7 +371,18 @@ async def execute(codes: List[int], seams: Seams, factory, parse_message, count)
             kind = op[0]
             count("steps")
             try:
-                if kind == "create":
+                if kind in ("rng-create", "rng-init"):
+                    if op[1] == "seed":
+                        seams.random.seed(42)
+                    else:
+                        seams.random.setstate(seams.saved_random_state)
+                    kind, op = ("create", ["create", 0]) if kind == "rng-create" else ("init", ["init", 0])
+                if kind == "replace-store":
+                    handler.session_manager = type(sm)()
+                    sm = handler.session_manager
+                    model.s.clear()
+                    model.replaced = True
+                elif kind == "create":
                     c = op[1]
                     sid = sm.create_session(fresh_client(c), CREATE_VERSIONS[c])
                     new_id(sid, "create_session")
@@ -364,8 +400,11 @@ async def execute(codes: List[int], seams: Seams, factory, parse_message, count)
                     if kind == "initsid" and op[1] in model.s:
                         # dispatch with a live session id may count as activity of THAT session (both accepted)
                         cur = sm.get_session(ids[op[1]])
-                        if cur is not None and cur.last_activity == model.now and cur.created_at == model.s[op[1]][2]:
-                            model.s[op[1]][3] = model.now
+                        if cur is not None and cur.last_activity != model.now and cur.created_at == model.s[op[1]][2]:
+                            bad({"class": "dispatch-did-not-refresh-activity", "op": name,
+                                 "store": "replaced-after-construction" if model.replaced else "original"},
+                                f"an initialize carrying the id of live session #{op[1]} did not refresh that session's activity")
+                        model.s[op[1]][3] = model.now
                     d = ret[0].model_dump(exclude_none=True)
                     rk, why = classify(d)
                     if rk not in ("result", "error") or not strict_eq(d.get("id"), 11):
@@ -413,14 +452,15 @@ async def execute(codes: List[int], seams: Seams, factory, parse_message, count)
                     if not ok or classify(d)[0] != "result" or not strict_eq(d.get("id"), 12) or ret[1] is not None:
                         bad({"class": "wrong-return", "op": name}, f"ping with session #{k} returned {ret!r}")
                     if k in model.s:
-                        # the statement does not say whether dispatch counts as activity: both accepted
+                        # a request that carries a live session id is activity of that session ("idle" is measured from it)
                         cur = sm.get_session(ids[k])
-                        if cur is not None and cur.last_activity == model.now:
-                            if model.s[k][3] != model.now:
-                                count("dispatch-refreshed-activity")
-                            model.s[k][3] = model.now
-                        else:
-                            count("dispatch-did-not-refresh-activity")
+                        if cur is not None and cur.last_activity != model.now and cur.created_at == model.s[k][2]:
+                            bad({"class": "dispatch-did-not-refresh-activity", "op": name,
+                                 "store": "replaced-after-construction" if model.replaced else "original"},
+                                f"a request carrying the id of live session #{k} was dispatched at now={model.now}; the session's "
+                                f"last_activity is still {cur.last_activity} (it will expire although in use)")
+                        count("dispatch-refreshed-activity")
+                        model.s[k][3] = model.now
                 elif kind == "cleanup":
                     a = op[1]
                     limit = 3600 if a == "default" else a
@@ -514,7 +554,7 @@ async def execute(codes: List[int], seams: Seams, factory, parse_message, count)
                 check_both(name)
     except Stop:
         return {"viol": viol, "cut": "violation"}
-    if clock.calls == 0 and any(o[0] in ("create", "init", "initsid") for o in hist):
+    if clock.calls == 0 and any(o[0] in ("create", "init", "initsid", "rng-create", "rng-init") for o in hist):
         raise core.HarnessError("seam missing: the session store did not read chuk_mcp.server.session.memory.time")
     # canonical real observable (richer than the model key: it is what histories must agree on)
     listing = sm.list_sessions()
@@ -526,7 +566,7 @@ async def execute(codes: List[int], seams: Seams, factory, parse_message, count)
                   r.metadata, r.session_id == k] for k, r in sorted(lb.items(), key=lambda kv: ids_b.index(kv[0]))])
     real.append(len(ids_b))
     return {"viol": viol, "cut": None, "key": _h(model.canon()), "digest": _h(real), "n_issued": model.n,
-            "n_issued_b": model.nb, "live": len(model.s), "live_b": len(model.b)}
+            "n_issued_b": model.nb, "live": len(model.s), "live_b": len(model.b), "replaced": model.replaced}
 
 
 def _factory():
@@ -564,7 +604,7 @@ def run_one(ctl: explorer.Ctl, cfg: Dict[str, Any]) -> Dict[str, Any]:
             return
         # (an empty history that is already in violation still has its one-step extensions executed: they are
         # executions like any other, and each reports what it sees)
-        ops = enabled(base.get("n_issued", 0), base.get("n_issued_b", 0))
+        ops = enabled(base.get("n_issued", 0), base.get("n_issued_b", 0), base.get("replaced", False))
         if cfg.get("noB"):
             ops = [o for o in ops if not OPS[o][0].startswith("b-")]
         if cfg.get("op") is not None:
@@ -824,8 +864,9 @@ def run(tier: str, only=None) -> core.Result:
         "of session #0 / #1 / a never-issued id, get/update_activity/delete/"
         "ping-with-session-id over every issued id and a never-issued one, cleanup_expired(0 | 10 | default), "
         "list_sessions + mutate the returned dict (add | delete | clear), clear_all_sessions, advance the (fractional) clock "
-        "by 0.5 | 9.5 | 3599.5 from a start at x.25}}, "
-        "and on a SECOND ProtocolHandler alive next to the first {{create, initialize, delete, clear}} whose store must stay its own "
+        "by 0.5 | 9.5 | 3599.5 from a start at x.25, "
+        "replace the handler's store by a fresh one (once), create / initialize right after random.seed(42) or after "
+        "random.setstate(state at the start)}}; and on a SECOND ProtocolHandler alive next to the first {{create, initialize, delete, clear}} whose store must stay its own "
         f"(both public views are compared with two independent model maps); at most {MAX_IDS} + {MAX_IDS_B} ids issued per history; "
         + (f"one more level (length {depth + extra}) extends the histories that never issued an id on the second handler with the "
            "first handler's operations only; " if extra else "") +
@@ -839,10 +880,13 @@ def run(tier: str, only=None) -> core.Result:
         "not visible through the other, and a new handler's store is empty",
         "canonicalisation: issue index replaces the opaque id and ages replace absolute times - sound if no operation inspects "
         "the id's characters or the absolute clock value (expiry is specified on now - last_activity only)",
+        "ids must be unique whatever the application does with the process-wide random module (random.seed(42) / setstate of an "
+        "earlier state right before an id is issued); the uuid stub hands out distinct values, so uniqueness never rests on it",
         "uuid.uuid4 and the session module's time are the only sources of ids / time (stubbed; the check fails as a harness "
         "error if the clock stub is never read)",
-        "whether dispatching a request (ping, or a second initialize) with a known session id refreshes that session's "
-        "last_activity is not stated: both are accepted (counted); with an unknown id it must not create a session; "
+        "dispatching a request (ping, or a second initialize) that carries the id of a live session is activity of that session "
+        "(last_activity = now) - also after the application replaced handler.session_manager by a fresh store; with an unknown "
+        "id it must not create a session; "
         "an initialize carrying a session id must still create exactly one NEW session and leave the carried one's record alone",
         "which protocolVersion initialize answers is C04's subject: the model records the answered version",
         "an initialize answered with an error ends the history unjudged (does not occur on this tree unless counted)",
